@@ -56,22 +56,27 @@ func H_C06_revcomp_u() {
 	}
 }
 
-// H_C06_revcomp_subset: ReverseComplementSequences touches exactly the named rows.
-// bounds: n=3 rows, L<=3, subset = any of the 8 subsets plus an unknown name
+// H_C06_revcomp_subset: ReverseComplementSequences touches exactly the named rows, in whatever order they are named and wherever unknown names stand in the list.
+// bounds: n=3 rows, L<=3, names = any of the 8 subsets listed in any of the 6 row orders, with an unknown name inserted at any position of the list (or not at all)
 func H_C06_revcomp_subset() {
 	n := 3
 	L := nondetRange(1, 3)
 	al, orig := vfSymAlign(NUCLEOTIDS, n, L, func(c uint8) bool { return vfIsIupacDNA(c, false) })
+	perms := [6][3]int{{0, 1, 2}, {0, 2, 1}, {1, 0, 2}, {1, 2, 0}, {2, 0, 1}, {2, 1, 0}}
+	perm := perms[nondetRange(0, 5)]
 	var names []string
 	sel := make([]bool, n)
-	for i := 0; i < n; i++ {
+	for _, i := range perm {
 		if nondetRange(0, 1) == 1 {
 			sel[i] = true
 			names = append(names, vfNames[i])
 		}
 	}
-	if nondetRange(0, 1) == 1 {
-		names = append(names, "unknown-name")
+	if at := nondetRange(-1, len(names)); at >= 0 {
+		verifReach("unknown name in the list")
+		withUnknown := append([]string{}, names[:at]...)
+		withUnknown = append(withUnknown, "unknown-name")
+		names = append(withUnknown, names[at:]...)
 	}
 	err := al.ReverseComplementSequences(names...)
 	verifReach("subset")
